@@ -48,8 +48,17 @@ def gen(rng, tier, quarantine=()):
         if "no-completion-raises" not in quarantine and rng.random() < 0.12 and sels[0].get("focus") and not op.get("raw"):
             ops.append({"op": "stage", "id": pid, "kind": rng.choice(["min", "max", "last"]),
                         "cap": sels[0]["focus"]["as"], "bare": rng.random() < 0.7})
+    if "no-failed-activation" not in quarantine and rng.random() < 0.25:
+        # a probe whose second selector is refused at activation: the failed
+        # activation must leave nothing behind (the first selector's tooling!)
+        good = gen_sel(rng, fns)
+        bad = {"levels": [{"fn": rng.choice(fns), "caps": [], "sibs": []}],
+               "focus": {"var": "nosuchvar", "as": "nosuchvar"}}
+        ops.append({"op": "mk", "id": "bad", "sels": [good, bad], "inv": "C05.exactly_once",
+                    "kind": "probe", "expect_refusal": True, "raw": good.get("mode") == "total"})
+        kinds["bad"] = "refused"
     nsteps = rng.randint(4, 12) if tier == "quick" else rng.randint(6, 28)
-    inactive = [f"p{i}" for i in range(nprobes)]
+    inactive = [f"p{i}" for i in range(nprobes)] + (["bad"] if "bad" in kinds else [])
     blocks = []  # stack of active block probes
     active = []
     pc = rng.choice([0.6, 0.8])
@@ -58,6 +67,8 @@ def gen(rng, tier, quarantine=()):
         if r < 0.3 and inactive:
             pid = inactive.pop(rng.randrange(len(inactive)))
             ops.append({"op": "enter", "id": pid})
+            if kinds[pid] == "refused":
+                continue  # the activation fails; nothing becomes active
             active.append(pid)
             if kinds[pid] == "block":
                 blocks.append(pid)
